@@ -147,9 +147,12 @@ def concurrent_first_use(rec, rng, n):
         return
     inj = [0]
 
+    armed = [False]
+
     def on_line(code, line):
-        inj[0] += 1
-        time.sleep(0.0005)
+        if armed[0]:
+            inj[0] += 1
+            time.sleep(0.0003)
 
     mon.register_callback(TOOL, mon.events.LINE, on_line)
     from werkzeug.routing import matcher as _MM
@@ -159,6 +162,8 @@ def concurrent_first_use(rec, rng, n):
         codes.append(_MM.StateMachineMatcher.update.__code__)
     except AttributeError:
         pass
+    from werkzeug.routing import rules as _RR
+
     for c_ in list(codes):
         codes += [k for k in c_.co_consts if hasattr(k, "co_code")]  # nested helpers are code objects of their own
     for c_ in codes:
@@ -196,10 +201,14 @@ def concurrent_first_use(rec, rng, n):
                 results[i] = out
 
             ts = [threading.Thread(target=worker, args=(i,)) for i in range(2)]
-            for t in ts:
-                t.start()
-            for t in ts:
-                t.join(30)
+            armed[0] = True
+            try:
+                for t in ts:
+                    t.start()
+                for t in ts:
+                    t.join(60)
+            finally:
+                armed[0] = False
             rec.case()
             rec.observe("concurrent_first_use_maps")
             rec.nontrivial(("conc", tuple(r.rule for r in proto)))
@@ -210,6 +219,53 @@ def concurrent_first_use(rec, rng, n):
                         rec.violation("C04/concurrent-first-use-builds-differently", f"thread {i}: build({ep!r}, {dict(vk)!r}) = {got!r}, sequential first use gives {exp[(ep, vk)]!r}; rules {[r.rule for r in proto]}",
                                       {"rules": [r.rule for r in proto], "endpoint": ep, "values": dict(vk)}, monitor="schedule-stress")
                         break
+        # ---- second phase: the map is already sorted; twelve threads, arriving a few milliseconds apart, build the *same* URL as their first build (whatever
+        # a rule prepares lazily on its first build is prepared under their feet).  Yields inside Rule's own methods.
+        for c_ in codes:
+            mon.set_local_events(TOOL, c_, 0)
+        rcodes = [f.__code__ for f in vars(_RR.Rule).values() if hasattr(f, "__code__") and f.__name__ not in ("__init__", "__repr__", "__str__", "__eq__", "__hash__")]
+        for c_ in list(rcodes):
+            rcodes += [k for k in c_.co_consts if hasattr(k, "co_code")]
+        codes += rcodes
+        for _ in range(n):
+            m = Map([Rule("/one/<int:a>/<string:b>", endpoint="one"), Rule("/two/<path:p>", endpoint="two")])
+            m.update()
+            ad = m.bind("h.com")
+            call = rng.choice([("one", {"a": 7, "b": "x y", "extra": "q"}), ("two", {"p": "a/b"}), ("one", {"a": 1, "b": "z"})])
+            expected1 = Map([Rule("/one/<int:a>/<string:b>", endpoint="one"), Rule("/two/<path:p>", endpoint="two")]).bind("h.com").build(call[0], dict(call[1]))
+            res = {}
+            NT = 12
+            barrier = threading.Barrier(NT)
+            step = rng.choice([0.004, 0.008, 0.015])
+
+            def first_build(i):
+                barrier.wait()
+                time.sleep(i * step)  # arrivals spread over the time the first thread spends preparing the rule
+                try:
+                    res[i] = ad.build(call[0], dict(call[1]))
+                except Exception as e:  # noqa: BLE001
+                    res[i] = f"{type(e).__name__}: {e}"
+
+            ts = [threading.Thread(target=first_build, args=(i,)) for i in range(NT)]
+            for c_ in rcodes:
+                mon.set_local_events(TOOL, c_, mon.events.LINE)
+            armed[0] = True
+            try:
+                for t in ts:
+                    t.start()
+                for t in ts:
+                    t.join(60)
+            finally:
+                armed[0] = False
+                for c_ in rcodes:
+                    mon.set_local_events(TOOL, c_, 0)
+            rec.case()
+            rec.observe("concurrent_first_builds_of_one_rule")
+            rec.nontrivial(("conc-first-build", call[0], repr(call[1])))
+            for i, got in res.items():
+                if got != expected1:
+                    rec.violation("C04/concurrent-first-use-builds-differently", f"thread {i}: first build{call!r} = {got!r}, alone it gives {expected1!r}", {"endpoint": call[0], "values": repr(call[1])}, monitor="schedule-stress")
+                    break
     finally:
         for c_ in codes:
             mon.set_local_events(TOOL, c_, 0)
@@ -328,6 +384,36 @@ def run(shard, rec, rng):
             continue
         rec.observe("mode:" + mode)
         script = rng.choice(["/", "/app", "/app/"])
+        if mode in ("plain", "submount") and rng.random() < 0.2:
+            # fault: a rule factory fails part-way through Map.add (its last rule names an unknown converter); the
+            # application catches that and keeps serving.  The rules it yielded before failing are either gone or
+            # fully there - never buildable without being matchable (or the other way round).
+            from werkzeug.routing import BuildError
+
+            try:
+                m.bind("h.com", script).match("/__warm-up__")
+            except HTTPException:
+                pass
+            try:
+                m.add(Submount("/late", [Rule("/f0/<int:a>", endpoint="late0"), Rule("/f1/<string:b>/x", endpoint="late1"), Rule("/f2/<nosuchconverter:c>", endpoint="late2")]))
+                rec.observe("faulty_factory_did_not_fail")
+            except LookupError:
+                rec.observe("maps_with_a_failed_add")
+                adl = m.bind("h.com", script)
+                for ep_, vals_, path_ in (("late0", {"a": 5}, "/late/f0/5"), ("late1", {"b": "x y"}, "/late/f1/x y/x")):
+                    rec.case()
+                    fcase = {"mode": mode, "script": script, "failed_add": True, "endpoint": ep_}
+                    try:
+                        built_ = adl.build(ep_, vals_)
+                    except BuildError:
+                        built_ = None
+                    try:
+                        matched_ = adl.match(path_)
+                    except HTTPException as e_:
+                        matched_ = type(e_).__name__
+                    ok_ = (built_ is None and matched_ == "NotFound") or (built_ is not None and matched_ == (ep_, vals_))
+                    if not ok_:
+                        rec.violation("C04/failed-add-leaves-half-a-rule", f"after a failed Map.add: build({ep_!r}) = {built_!r}, match({path_!r}) = {matched_!r}", fcase, monitor="law1")
         if mode == "host":
             ad = m.bind("h.com", script)
         elif mode == "subdomain":
